@@ -128,7 +128,7 @@ var c08HistKnobs = Knobs{
 	Clients: [2]int{1, 3}, TCPClients: [2]int{0, 1}, Peers: [2]int{3, 6}, Steps: [2]int{20, 45}, V6: 10,
 	TimeoutSets: [][3]time.Duration{{0, 0, 4 * time.Hour}, {2 * time.Minute, 30 * time.Second, 4 * time.Hour}, {30 * time.Second, 2 * time.Minute, 4 * time.Hour}},
 	Lifetimes:   []int64{-1},
-	W:           map[string]int{"allocate": 1, "chan": 16, "perm": 2, "data": 5, "probe": 5, "time": 2, "refresh": 1},
+	W:           map[string]int{"allocate": 1, "chan": 16, "perm": 2, "data": 5, "probe": 8, "time": 2, "refresh": 1},
 }
 
 func init() {
